@@ -81,17 +81,25 @@ def gen_case(rng, backend, exact=False):
         mode = "T" if rng.random() < 0.3 else "X"      # T: dyadic parameters (SQL literals comparable with the generators)
         spec = G.gen_spec(rng, mode, allow_inf=allow_inf)
         # models with TF adjustments are the interesting ones here
-        for _ in range(3):
-            if spec["tf_cols"] or rng.random() < 0.25:
+        want_fuzzy = rng.random() < 0.6
+        for _ in range(12):
+            has_fuzzy = any(lv["tf_col"] and lv["kind"] in ("lev", "custom") and lv["exact_col"] is None and Fr(lv["w"]) != 0
+                            for c in spec["comparisons"] for lv in c["levels"])
+            if (has_fuzzy if want_fuzzy else (spec["tf_cols"] or rng.random() < 0.25)):
                 break
             spec = G.gen_spec(rng, mode, allow_inf=allow_inf)
     spec["link_type"] = rng.choice(["dedupe_only", "dedupe_only", "link_only", "link_only", "link_and_dedupe", "link_and_dedupe"])
     rows = E.gen_tables(rng, spec["link_type"])
-    lookups = {} if exact else X.gen_lookups(rng, spec, rows)
+    # the fuzzy TF-adjusted levels' columns get a registered lookup most of the time (values only the lookup knows
+    # reach a TF adjustment only through a fuzzy level)
+    fuzzy_tf = sorted({lv["tf_col"] for c in spec["comparisons"] for lv in c["levels"]
+                       if lv["tf_col"] and lv["kind"] in ("lev", "custom") and lv["exact_col"] is None and Fr(lv["w"]) != 0})
+    lookups = {} if exact else E.gen_lookups(rng, spec, rows, force_cols=[c for c in fuzzy_tf if rng.random() < 0.8])
+    computed = [c for c in spec["tf_cols"] if c not in lookups and rng.random() < 0.3]
     r = rng.random()
     fm_thr = {"row": rng.randint(0, 40)} if (exact or r < 0.5) else rng.choice([-4.0, 0.0, -10.0, 2.5, -1e5])
     me_thr = None if rng.random() < 0.5 else rng.choice([-6.0, 0.0, -2.5, 3.0])
-    return {"spec": spec, "rows": rows, "lookups": lookups, "rules": ["1=1"], "backend": backend,
+    return {"spec": spec, "rows": rows, "lookups": lookups, "computed_tf": [] if exact else computed, "rules": ["1=1"], "backend": backend,
             "n_c2r": 3, "n_rt": 3, "rt_cache": rng.choice([[False, True, True], [True, True, False], [True, False, True]]),
             "cold": rng.random() < 0.5, "fm_rules": rng.choice(E.FM_RULES),
             "fm_thr": fm_thr, "me_thr": me_thr, "exact_thr": exact, "seed": rng.randrange(10 ** 9)}
@@ -384,6 +392,9 @@ def run(ctx: Ctx):
         ctx.hist("fm_new_source_dataset_column", res["fm"]["new_source_dataset_column"])
         ctx.hist("has_tf", bool(case["spec"]["tf_cols"]))
         ctx.hist("registered_lookup", bool(case["lookups"]))
+        ctx.hist("computed_tf_table", bool(case.get("computed_tf")))
+        ctx.hist("lookup_values_absent_from_data", sum(len(E.absent_lookup_values(case, c)) for c in case["lookups"]))
+        ctx.hist("adhoc_records_with_lookup_only_value", res["n_planted"])
         ctx.hist("fm_rules", len(case["fm_rules"]))
         ctx.hist("fm_output_size", len(res["fm"]["impl"]))
         ctx.hist("me_output_size", len(res["me"]["impl"]))
